@@ -814,6 +814,23 @@ def gen_c20(rng, tier):
         else:
             # stored-history policies with many partial fits: labels first seen after the first batch
             base = gen.gen_ctx_case(rng, nps=["radius", "knearest", "lsh"], max_ops=9, fit_prob=0.02, label="int")
+            if rng.random() < 0.6 and len(base["arms"]) >= 2 and base["ops"] and base["ops"][0][0] == "fit":
+                # string labels of different lengths, the longest one first seen in a LATER batch: a history buffer sized by the labels
+                # of the first batch would truncate it
+                lab = mwh.make_label("str")
+                by_len = sorted(base["arms"], key=lambda a: (len(lab(a)), a))
+                short, longest = by_len[0], by_len[-1]
+                if len(lab(longest)) > len(lab(short)):
+                    f0 = base["ops"][0]
+                    keep_len = len(lab(short))
+                    ops = [(f0[0], [d if len(lab(d)) <= keep_len else short for d in f0[1]], f0[2], f0[3])] + list(base["ops"][1:])
+                    d = len(f0[3][0])
+                    k = rng.randint(1, 3)
+                    extra = ("pfit", [longest] * k, [float(rng.randint(0, 1)) for _ in range(k)], [list(rng.choice(f0[3])) for _ in range(k)])
+                    cut = rng.randint(1, len(ops))
+                    ops = ops[:cut] + [extra] + ops[cut:] + [("pexp", [list(extra[3][0])]), ("pred", [list(f0[3][0])])]
+                    base["ops"] = ops
+                    return {"kind": kind, "base": base, "style2": "str"}
             return {"kind": kind, "base": base, "style2": rng.choice(["str", "str", "float", "negint", "mixed"])}
         if rng.random() < 0.5 and 0 not in base["arms"] and not any(o[0] == "add" and o[1] == 0 for o in base["ops"]):
             base = remap_arm(base, rng.choice(base["arms"]), 0)     # the falsy label 0
